@@ -39,7 +39,7 @@ class Infra(Exception):
 # Lean side: build + audit
 # ---------------------------------------------------------------------------------------------
 
-ESCALATE = 3      # extra quick rounds when the anchored source drifted from the validated pins
+ESCALATE = int(os.environ.get("VERIF_ESCALATE", "3"))      # extra quick rounds when the anchored source drifted from the validated pins
 
 
 def strip_comments(src):
